@@ -24,6 +24,10 @@ FORBIDDEN = re.compile(r"\bsorry\b|\badmit\b|^\s*axiom\s|native_decide|bv_decide
 sys.path.insert(0, str(VERIF / "translator"))
 
 
+# properties whose hand model is additionally tied to the source by Props/Tie.lean (generated ReaderArith)
+TIE_PROPS = {"C01", "C06", "C07", "C11", "C18"}
+
+
 class InfraError(Exception):
     """Harness/toolchain failure: exit 2, never a violation."""
 
@@ -128,6 +132,10 @@ def lean_pipeline(pid: str, thorough: bool = False) -> dict:
         if not props.exists():
             raise InfraError(f"{props} missing")
         ths = theorems_in(props)
+        extra_targets = []
+        if pid in TIE_PROPS:
+            ths = ths + theorems_in(LEAN / "SppModel" / "Props" / "Tie.lean")
+            extra_targets = ["SppModel.Props.Tie"]
         # generated obligations the property depends on (none failing = 0 extra)
         res["obligations"] = len(ths)
         target = f"SppModel.Props.{pid}"
@@ -137,7 +145,7 @@ def lean_pipeline(pid: str, thorough: bool = False) -> dict:
                 for ext in ("olean", "ilean", "trace", "hash", "c", "setup.json"):
                     for f in (LEAN / ".lake/build").rglob(f"{sub}/*.{ext}"):
                         f.unlink(missing_ok=True)
-        r = run(["lake", "build", target, "SppModel"], cwd=LEAN, timeout=3000)
+        r = run(["lake", "build", target, "SppModel"] + extra_targets, cwd=LEAN, timeout=3000)
         res["build_rc"] = r.returncode
         log = r.stdout + r.stderr
         res["build_log_tail"] = log[-4000:]
@@ -156,7 +164,7 @@ def lean_pipeline(pid: str, thorough: bool = False) -> dict:
         WORK.mkdir(exist_ok=True)
         audit = WORK / f"Audit_{pid}.lean"
         names = [n for n, _, priv in ths if not priv]
-        audit.write_text(f"import SppModel.Props.{pid}\n" + "".join(f"#print axioms {n}\n" for n in names))
+        audit.write_text(f"import SppModel.Props.{pid}\n" + ("import SppModel.Props.Tie\n" if pid in TIE_PROPS else "") + "".join(f"#print axioms {n}\n" for n in names))
         r = run(["lake", "env", "lean", str(audit)], cwd=LEAN, timeout=1200)
         out = r.stdout + r.stderr
         if r.returncode != 0:
